@@ -12,6 +12,7 @@ failing input.
 from __future__ import annotations
 
 import json
+import subprocess
 import os
 from typing import Any, Dict, List, Optional
 
@@ -114,7 +115,13 @@ def check_case(ctx: Ctx, grammar, gname: str, text: str, trees: List[T.PT], orig
         ctx.count("generator", "unsupported:" + str(e)[:30])
         return
     size_bound = max(T.size(t) for t in trees) + 16
-    ref = drive([semconv.eval_requests(grammar, trees, fs, int_bound=size_bound)])[0]
+    try:
+        ref = drive([semconv.eval_requests(grammar, trees, fs, int_bound=size_bound)], timeout=90.0)[0]
+    except subprocess.TimeoutExpired:
+        # the reference's bounded search for numeric quantifiers is exponential in their nesting depth
+        ctx.count("reference", "not finished within 90 s (no verdict)")
+        ctx.coverage.setdefault("notes", []).append("reference evaluation not finished within 90 s: " + text[:200])
+        return
     dts = [T.to_isla(t) for t in trees]
     isla = isla_verdicts(text, grammar, dts)
     refs = [semconv.tv(a) for a in ref]
